@@ -25,7 +25,7 @@ func init() {
 			"oracle: reference model of NotInAudience / OneTimeUse / ProxyRestriction; distinct = shape hash (restriction pattern, configured URI kind, OTU, proxy, n, placement, perturbation, outcome)",
 		Directed:    c06Directed,
 		Run:         c06Run,
-		MustHit:     []string{"restrictions=0", "restrictions>=2", "empty_restriction", "near_miss", "match_then_miss", "miss_then_match", "otu", "proxy", "configured_empty", "forwarded_other_sp", "duplicate", "recompress", "clock_before_not_before", "clock_after_conditions_end", "long_audience_list"},
+		MustHit:     []string{"restrictions=0", "restrictions>=2", "empty_restriction", "near_miss", "match_then_miss", "miss_then_match", "otu", "proxy", "configured_empty", "forwarded_other_sp", "duplicate", "recompress", "clock_before_not_before", "clock_after_conditions_end", "long_audience_list", "proxy_count_beyond_64_bits"},
 		RandomRuns:  map[string]int{"quick": 8000, "thorough": 80000},
 		Assumptions: []string{"comparison of audience values is byte-exact, as the property states"},
 	})
@@ -179,8 +179,23 @@ func c06Run(r *core.Run) {
 	if otu {
 		r.Probe("otu")
 	}
+	countUnrepresentable := false
 	if proxy {
-		p := &world.LProxy{Count: []int{0, 1, 2, 5, 1000000}[t.Int(5, "c06.proxy.count")]}
+		p := &world.LProxy{}
+		switch ci := t.Int(10, "c06.proxy.count"); ci {
+		case 5:
+			p.Count, p.CountLit = 9223372036854775807, "9223372036854775807"
+		case 6:
+			p.Count, p.CountLit = 3, "00000000000000000000003"
+		case 7, 8, 9:
+			// xs:nonNegativeInteger has no upper bound; such a Count need not be accepted, but it cannot be
+			// reported as anything else
+			p.CountLit = []string{"9223372036854775808", "18446744073709551615", "18446744073709551616"}[ci-7]
+			countUnrepresentable = true
+			r.Probe("proxy_count_beyond_64_bits")
+		default:
+			p.Count = []int{0, 1, 2, 5, 1000000}[ci]
+		}
 		np := t.Int(4, "c06.proxy.naud")
 		for j := 0; j < np; j++ {
 			p.Audiences = append(p.Audiences, world.DrawValue(t, "c06.proxy.aud"))
@@ -263,6 +278,13 @@ func c06Run(r *core.Run) {
 			return
 		}
 		ctx := obs("time_mode", timeMode, "restrictions", a0.AudienceRestrictions, "configured", s.Cfg.Audience, "otu", otu, "proxy", world.J(a0.Proxy), "delivery", di, "perturb", perturb)
+		if countUnrepresentable {
+			if out.OK() {
+				ctx["got"] = world.J(ai.WarningInfo)
+				r.Fail("proxy", "C06/proxy/unrepresentable-count-reported-as-something-else", ctx)
+			}
+			return
+		}
 		if !out.OK() {
 			ctx["err"] = fmt.Sprint(out.Err)
 			r.Fail("accept", "C06/genuine-rejected/"+world.ErrClass(out.Err), ctx)
